@@ -22,6 +22,7 @@ RULE = (
     "point at separation 1e-1..1e-6) walking cond from 1e2 to 1e11; Trend degrees 0..4 on every monomial of degree <= N over all "
     "unisolvent lattice subsets with ncoef and ncoef+1 points (tensor lattices minus one point for N = 3, 4), evaluated on a lattice "
     "twice the data extent. Non-trivial: compared cases (conditioning within the comparable band)."
+    " Added axes: Fortran / prefit frames, forces given explicitly in another order, data of magnitude 1e-13 / 1e11, every third data vector as float32, parameter routes (constructor / set_params / attribute / clone) rotating over the cases, a Chain whose steps share one name, conditioning ladder; Trend: eight routes to the degree, structured query sets (profiles along the axes through the origin, single and repeated points)."
 )
 ASSUMPTIONS = ["tolerance 1024 * cond * eps * max|data| with cond the condition number of the unit-variance-column-scaled Jacobian computed by the "
                "reference SVD; systems with cond > 1e10 or singular are counted as not compared",
